@@ -178,3 +178,15 @@ Theorem forward_segment_reads_inside_the_sample_block : forall skip flags s file
   kernel c {| m_data := blk; m_base := 4 |} a count ramp st buf <> None.
 Proof. exact forward_segment_reads_inside_block_8bit. Qed.
 Print Assumptions forward_segment_reads_inside_the_sample_block.
+
+(* the same when a voice plays backwards (reverse and bidirectional loops): step < 0 and the rule is
+   St * 65536 <= P * 65536 + frac + (count - 1) * step for the voice's start St *)
+Theorem reverse_segment_reads_inside_the_sample_block : forall skip flags s file pos nbuf s' blk pos' c a count ramp st buf P St,
+  load_sample skip flags s file pos nbuf = Loaded s' blk pos' ->
+  framelen_of (SampleLoad.s_flg s) = chn_of c ->
+  0 <= s_frac st < 65536 -> s_pos st = P * chn_of c -> 0 <= St -> P <= SampleLoad.s_len s' -> a_step a < 0 ->
+  St * 65536 <= P * 65536 + s_frac st + (count - 1) * a_step a ->
+  (Z.to_nat (Z.max 0 count) * (if k_sout c then 2 else 1) <= length buf)%nat ->
+  kernel c {| m_data := blk; m_base := 4 |} a count ramp st buf <> None.
+Proof. exact reverse_segment_reads_inside_block_8bit. Qed.
+Print Assumptions reverse_segment_reads_inside_the_sample_block.
